@@ -78,6 +78,11 @@ func (t *baseTestSuffrageStateBuilder) prepare(point base.Point, previous base.S
 	proof, err := tr.Proof(newstate.Hash().String())
 	t.NoError(err)
 
+	manifest := blockMap.Manifest().(base.DummyManifest)
+	manifest.SetStatesTree(tr.Root())
+	blockMap.SetManifest(manifest)
+	t.NoError(blockMap.Sign(t.Local.Address(), t.Local.Privatekey(), t.LocalParams.NetworkID()))
+
 	return isaacblock.NewSuffrageProof(blockMap, newstate, proof)
 }
 
